@@ -500,6 +500,285 @@ theorem badAnd_exact (ta tb : TV) (h : badAnd ta tb = true) :
   revert h
   cases ta <;> cases tb <;> decide
 
+/-! ### inside the F4 shape mypy's answer is always the wrong one -/
+
+theorem version_core_f4 (env : Env) (M m mc se : Nat) (lv : String)
+    (henv : env.versionInfo = versionTuple M m mc lv se)
+    (v t : Operand) (i : VIdx) (th : Thing) (op : Op)
+    (hv : containsSysVersionInfo v = some i) (ht : containsIntOrTupleOfInts t = some th)
+    (tv : TV) (hd : decideVersion (some i) (some th) op M m = tv) (hne : tv ≠ .unknown)
+    (hf4 : f4Core i th op M m = true) :
+    ∃ a b, evalOperand env v = some a ∧ evalOperand env t = some b ∧
+      cmpVal op a b = some (!(tv == .alwaysTrue)) ∧ cmpVal (reverseOp op) b a = some (!(tv == .alwaysTrue)) := by
+  cases i with
+  | index k => simp [f4Core] at hf4
+  | slice lo hi =>
+    cases th with
+    | int n => simp [f4Core] at hf4
+    | tuple ts =>
+      cases hi with
+      | some b => simp [f4Core] at hf4
+      | none =>
+        simp only [f4Core, Bool.and_eq_true, decide_eq_true_eq] at hf4
+        obtain ⟨hts, hop⟩ := hf4
+        simp only [decideVersion] at hd
+        split at hd
+        · next hb =>
+          obtain ⟨extra, hsl, hex⟩ := slice_rt M m mc se lv lo none hb
+          have hx : extra ≠ [] := fun h => (hex.mp h) rfl
+          have hvv := cvi_slice hv env
+          rw [henv, hsl] at hvv
+          have htt := ciot_tuple ht env
+          have hval : ((natsToInts [M, m]).drop (lo.getD 0)).take (Option.getD none 2 - lo.getD 0) = natsToInts ts := by
+            rw [hts]
+            apply List.take_of_length_le
+            simp [natsToInts] <;> omega
+          rw [hval] at hvv hd
+          have hlex : lexOrd (natsToInts ts) (natsToInts ts) = .eq := (lexOrd_eq_iff _ _).mpr rfl
+          split at hd
+          · refine ⟨_, _, hvv, htt, ?_, ?_⟩
+            · simp only [cmpVal]
+              rw [cmpElems_prefix op extra _ _ (Nat.le_refl _), ← hd, fixedCmpTuple, ofBool_beq, hlex]
+              simp only [hx, if_false]
+              cases op <;> simp [ordThen, opHolds] at hop ⊢ <;> decide
+            · simp only [cmpVal]
+              rw [cmpElems_prefix_swapped (reverseOp op) extra _ _ (Nat.le_refl _), reverseOp_reverseOp,
+                ← hd, fixedCmpTuple, ofBool_beq, hlex]
+              simp only [hx, if_false]
+              cases op <;> simp [ordThen, opHolds] at hop ⊢ <;> decide
+          · exact absurd hd.symm hne
+        · exact absurd hd.symm hne
+
+theorem version_cmp_f4_wrong (env : Env) (M m mc se : Nat) (lv : String)
+    (henv : env.versionInfo = versionTuple M m mc lv se) (l : Operand) (op : Op) (r : Operand) (tv : TV)
+    (hd : considerSysVersionInfo l op r M m = tv) (hne : tv ≠ .unknown)
+    (hf4 : f4Shape l op r M m = true) :
+    eval env (.cmp l op r) = some (!(tv == .alwaysTrue)) := by
+  unfold considerSysVersionInfo at hd
+  unfold f4Shape at hf4
+  simp only at hd hf4
+  unfold pickOperands at hd hf4
+  cases hcl : containsSysVersionInfo l with
+  | some i =>
+    cases hcr : containsIntOrTupleOfInts r with
+    | some th =>
+      simp only [hcl, hcr] at hd hf4
+      obtain ⟨a, b, ha, hb, hc, _⟩ := version_core_f4 env M m mc se lv henv l r i th op hcl hcr tv hd hne hf4
+      simp [eval, ha, hb, hc]
+    | none =>
+      simp only [hcl, hcr] at hd hf4
+      cases hi : containsSysVersionInfo r with
+      | none => simp [hi] at hf4
+      | some i' =>
+        cases ht : containsIntOrTupleOfInts l with
+        | none => simp [hi, ht] at hf4
+        | some th' =>
+          simp only [hi, ht] at hd hf4
+          obtain ⟨a, b, ha, hb, _, hc⟩ :=
+            version_core_f4 env M m mc se lv henv r l i' th' (reverseOp op) hi ht tv hd hne hf4
+          rw [reverseOp_reverseOp] at hc
+          simp [eval, ha, hb, hc]
+  | none =>
+    simp only [hcl] at hd hf4
+    cases hi : containsSysVersionInfo r with
+    | none => simp [hi] at hf4
+    | some i' =>
+      cases ht : containsIntOrTupleOfInts l with
+      | none => simp [hi, ht] at hf4
+      | some th' =>
+        simp only [hi, ht] at hd hf4
+        obtain ⟨a, b, ha, hb, _, hc⟩ :=
+          version_core_f4 env M m mc se lv henv r l i' th' (reverseOp op) hi ht tv hd hne hf4
+        rw [reverseOp_reverseOp] at hc
+        simp [eval, ha, hb, hc]
+
+def IsBoolish (t : TV) : Prop := t = .alwaysTrue ∨ t = .alwaysFalse ∨ t = .unknown
+
+theorem ofBool_boolish (b : Bool) : IsBoolish (ofBool b) := by cases b <;> simp [IsBoolish, ofBool]
+
+theorem decideVersion_boolish (i : Option VIdx) (th : Option Thing) (op : Op) (M m : Nat) :
+    IsBoolish (decideVersion i th op M m) := by
+  unfold decideVersion
+  split
+  · split
+    · exact ofBool_boolish _
+    · split
+      · exact ofBool_boolish _
+      · exact Or.inr (Or.inr rfl)
+  · simp only
+    split
+    · split
+      · exact ofBool_boolish _
+      · exact Or.inr (Or.inr rfl)
+    · exact Or.inr (Or.inr rfl)
+  · exact Or.inr (Or.inr rfl)
+
+
+/-! ### the variant with the open-ended-slice rule (proposed_fix_F4) -/
+
+theorem take_drop_two (M m lo : Nat) (_h : lo < 2) :
+    ((natsToInts [M, m]).drop lo).take (2 - lo) = (natsToInts [M, m]).drop lo := by
+  apply List.take_of_length_le
+  simp [natsToInts] <;> omega
+
+theorem lexOrd_self (l : List Int) : lexOrd l l = .eq := (lexOrd_eq_iff l l).mpr rfl
+
+/-- outside the F4 shape the rule changes nothing -/
+theorem decideVersionFix_of_not_f4 (i : VIdx) (th : Thing) (op : Op) (M m : Nat)
+    (hf4 : f4Core i th op M m = false) :
+    decideVersionFix (some i) (some th) op M m = decideVersion (some i) (some th) op M m := by
+  cases i with
+  | index k => rfl
+  | slice lo hi =>
+    cases th with
+    | int n => cases hi <;> rfl
+    | tuple t =>
+      cases hi with
+      | some b => rfl
+      | none =>
+        simp only [decideVersionFix]
+        split
+        · next hc =>
+          obtain ⟨hlo, heq⟩ := hc
+          simp only [f4Core, heq, decide_true, Bool.true_and] at hf4
+          simp only [decideVersion, Option.getD_none]
+          have hb : lo.getD 0 < 2 ∧ 2 ≤ 2 := ⟨hlo, Nat.le_refl _⟩
+          rw [if_pos hb, take_drop_two M m _ hlo, heq]
+          simp only [natsToInts_length, true_or, if_true, fixedCmpInt, fixedCmpTuple, lexOrd_self]
+          cases op <;> simp at hf4 <;> rfl
+        · rfl
+
+/-- inside it (and when the old code decided at all) the new answer is "greater" -/
+theorem decideVersionFix_of_f4 (i : VIdx) (th : Thing) (op : Op) (M m : Nat)
+    (hf4 : f4Core i th op M m = true) (hne : decideVersionFix (some i) (some th) op M m ≠ .unknown) :
+    decideVersion (some i) (some th) op M m ≠ .unknown ∧
+    (decideVersionFix (some i) (some th) op M m == .alwaysTrue) =
+      !(decideVersion (some i) (some th) op M m == .alwaysTrue) := by
+  cases i with
+  | index k => simp [f4Core] at hf4
+  | slice lo hi =>
+    cases th with
+    | int n => simp [f4Core] at hf4
+    | tuple t =>
+      cases hi with
+      | some b => simp [f4Core] at hf4
+      | none =>
+        simp only [f4Core, Bool.and_eq_true, decide_eq_true_eq] at hf4
+        obtain ⟨heq, hop⟩ := hf4
+        by_cases hlo : lo.getD 0 < 2
+        · have hb : lo.getD 0 < 2 ∧ 2 ≤ 2 := ⟨hlo, Nat.le_refl _⟩
+          have hold : decideVersion (some (.slice lo none)) (some (.tuple t)) op M m =
+              ofBool (opHolds op .eq) := by
+            simp only [decideVersion, Option.getD_none]
+            rw [if_pos hb, take_drop_two M m _ hlo, ← heq]
+            simp [natsToInts_length, fixedCmpTuple, lexOrd_self]
+          have hnew : decideVersionFix (some (.slice lo none)) (some (.tuple t)) op M m =
+              ofBool (opHolds op .gt) := by
+            simp only [decideVersionFix]
+            rw [if_pos ⟨hlo, heq.symm⟩]
+            rfl
+          rw [hold, hnew]
+          refine ⟨ofBool_ne_unknown _, ?_⟩
+          rw [ofBool_beq, ofBool_beq]
+          cases op <;> simp at hop <;> rfl
+        · exfalso
+          apply hne
+          simp only [decideVersionFix]
+          rw [if_neg (fun h => hlo h.1)]
+          simp only [decideVersion, Option.getD_none]
+          rw [if_neg (fun h' => hlo h'.1)]
+
+theorem version_core_fixed (env : Env) (M m mc se : Nat) (lv : String)
+    (henv : env.versionInfo = versionTuple M m mc lv se)
+    (v t : Operand) (i : VIdx) (th : Thing) (op : Op)
+    (hv : containsSysVersionInfo v = some i) (ht : containsIntOrTupleOfInts t = some th)
+    (tv : TV) (hd : decideVersionFix (some i) (some th) op M m = tv) (hne : tv ≠ .unknown) :
+    ∃ a b, evalOperand env v = some a ∧ evalOperand env t = some b ∧
+      cmpVal op a b = some (tv == .alwaysTrue) ∧ cmpVal (reverseOp op) b a = some (tv == .alwaysTrue) := by
+  cases hf4 : f4Core i th op M m with
+  | false =>
+    rw [decideVersionFix_of_not_f4 i th op M m hf4] at hd
+    exact version_core env M m mc se lv henv v t i th op hv ht tv hd hne hf4
+  | true =>
+    subst hd
+    obtain ⟨hold, hflip⟩ := decideVersionFix_of_f4 i th op M m hf4 hne
+    rw [hflip]
+    exact version_core_f4 env M m mc se lv henv v t i th op hv ht _ rfl hold hf4
+
+theorem decideVersionFix_none_left (th : Option Thing) (op : Op) (M m : Nat) :
+    decideVersionFix none th op M m = .unknown := by simp [decideVersionFix, decideVersion]
+
+theorem decideVersionFix_none_right (i : Option VIdx) (op : Op) (M m : Nat) :
+    decideVersionFix i none op M m = .unknown := by
+  cases i with
+  | none => simp [decideVersionFix, decideVersion]
+  | some i => cases i with
+    | index k => simp [decideVersionFix, decideVersion]
+    | slice lo hi => cases hi <;> simp [decideVersionFix, decideVersion]
+
+/-- with the open-ended-slice rule every decided comparison is exact — no excluded shape -/
+theorem version_cmp_exact_fixed (env : Env) (M m mc se : Nat) (lv : String)
+    (henv : env.versionInfo = versionTuple M m mc lv se) (l : Operand) (op : Op) (r : Operand) (tv : TV)
+    (hd : considerSysVersionInfoFix l op r M m = tv) (hne : tv ≠ .unknown) :
+    eval env (.cmp l op r) = some (tv == .alwaysTrue) := by
+  unfold considerSysVersionInfoFix at hd
+  simp only at hd
+  unfold pickOperands at hd
+  cases hcl : containsSysVersionInfo l with
+  | some i =>
+    cases hcr : containsIntOrTupleOfInts r with
+    | some th =>
+      simp only [hcl, hcr] at hd
+      obtain ⟨a, b, ha, hb, hc, _⟩ := version_core_fixed env M m mc se lv henv l r i th op hcl hcr tv hd hne
+      simp [eval, ha, hb, hc]
+    | none =>
+      simp only [hcl, hcr] at hd
+      cases hi : containsSysVersionInfo r with
+      | none => rw [hi, decideVersionFix_none_left] at hd; exact absurd hd.symm hne
+      | some i' =>
+        cases ht : containsIntOrTupleOfInts l with
+        | none => rw [ht, decideVersionFix_none_right] at hd; exact absurd hd.symm hne
+        | some th' =>
+          simp only [hi, ht] at hd
+          obtain ⟨a, b, ha, hb, _, hc⟩ :=
+            version_core_fixed env M m mc se lv henv r l i' th' (reverseOp op) hi ht tv hd hne
+          rw [reverseOp_reverseOp] at hc
+          simp [eval, ha, hb, hc]
+  | none =>
+    simp only [hcl] at hd
+    cases hi : containsSysVersionInfo r with
+    | none => rw [hi, decideVersionFix_none_left] at hd; exact absurd hd.symm hne
+    | some i' =>
+      cases ht : containsIntOrTupleOfInts l with
+      | none => rw [ht, decideVersionFix_none_right] at hd; exact absurd hd.symm hne
+      | some th' =>
+        simp only [hi, ht] at hd
+        obtain ⟨a, b, ha, hb, _, hc⟩ :=
+          version_core_fixed env M m mc se lv henv r l i' th' (reverseOp op) hi ht tv hd hne
+        rw [reverseOp_reverseOp] at hc
+        simp [eval, ha, hb, hc]
+
+theorem decideVersionFix_boolish (i : Option VIdx) (th : Option Thing) (op : Op) (M m : Nat) :
+    IsBoolish (decideVersionFix i th op M m) := by
+  unfold decideVersionFix
+  split
+  · split
+    · exact ofBool_boolish _
+    · exact decideVersion_boolish _ _ _ _ _
+  · exact decideVersion_boolish _ _ _ _ _
+
+/-- the value of the version test in the tree at hand -/
+def versionValue (o : Options) (l : Operand) (op : Op) (r : Operand) : TV :=
+  if o.openSliceFix then considerSysVersionInfoFix l op r o.major o.minor
+  else considerSysVersionInfo l op r o.major o.minor
+
+theorem versionValue_boolish (o : Options) (l : Operand) (op : Op) (r : Operand) :
+    IsBoolish (versionValue o l op r) := by
+  unfold versionValue
+  split
+  · unfold considerSysVersionInfoFix; exact decideVersionFix_boolish _ _ _ _ _
+  · unfold considerSysVersionInfo; exact decideVersion_boolish _ _ _ _ _
+
 /-! ### infer_condition_value as a whole -/
 
 /-- a run on the configured target -/
@@ -511,9 +790,9 @@ def EnvFor (o : Options) (env : Env) : Prop :=
 def NamesOK (o : Options) (env : Env) : Prop :=
   ∀ n b, env.names n = some b → nameValue n o ≠ .unknown → b = (nameValue n o).rt
 
-/-- no comparison in the condition has the F4 shape -/
+/-- no comparison in the condition has the F4 shape — or the tree has the open-ended-slice rule -/
 def noF4 (o : Options) : Cond → Bool
-  | .cmp l op r => !f4Shape l op r o.major o.minor
+  | .cmp l op r => o.openSliceFix || !f4Shape l op r o.major o.minor
   | .not c => noF4 o c
   | .and a b => noF4 o a && noF4 o b
   | .or a b => noF4 o a && noF4 o b
@@ -548,28 +827,28 @@ theorem leaf_sound (o : Options) (env : Env) (henv : EnvFor o env) (c : Cond) (t
       · exact absurd hd.symm hne
     · exact absurd hd.symm hne
   rcases hleaf with ⟨l, op, r, rfl⟩ | ⟨r, m, a, rfl⟩ | ⟨r, m, a, rfl⟩
-  · simp only [leafValue] at hd
+  · have hfold : leafValue (.cmp l op r) o =
+        (if versionValue o l op r = .unknown then considerSysPlatform (.cmp l op r) o.platform
+         else versionValue o l op r) := rfl
+    rw [hfold] at hd
     split at hd
     · exact hplatform tv hd hne
     · next hv =>
-      simp only [noF4, Bool.not_eq_true'] at hf4
-      have hex := version_cmp_exact env o.major o.minor mc se lv hvi l op r tv hd hne hf4
-      refine ⟨?_, fun b hb => by rw [hex] at hb; injection hb with hb; exact hb.symm⟩
-      -- a decided version test is ALWAYS_TRUE or ALWAYS_FALSE
-      unfold considerSysVersionInfo decideVersion at hd
-      simp only at hd
-      split at hd
-      · split at hd
-        · rw [← hd, fixedCmpInt]; cases opHolds _ _ <;> simp [ofBool]
-        · split at hd
-          · rw [← hd, fixedCmpInt]; cases opHolds _ _ <;> simp [ofBool]
-          · exact absurd hd.symm hne
-      · split at hd
-        · split at hd
-          · rw [← hd, fixedCmpTuple]; cases opHolds _ _ <;> simp [ofBool]
-          · exact absurd hd.symm hne
-        · exact absurd hd.symm hne
-      · exact absurd hd.symm hne
+      have hbool : tv = .alwaysTrue ∨ tv = .alwaysFalse := by
+        rcases versionValue_boolish o l op r with h | h | h
+        · exact Or.inl (hd ▸ h)
+        · exact Or.inr (hd ▸ h)
+        · exact absurd h hv
+      refine ⟨hbool, ?_⟩
+      have hex : eval env (.cmp l op r) = some (tv == .alwaysTrue) := by
+        unfold versionValue at hd
+        split at hd
+        · exact version_cmp_exact_fixed env o.major o.minor mc se lv hvi l op r tv hd hne
+        · next hfix =>
+          simp only [noF4, hfix, Bool.false_or, Bool.not_eq_true'] at hf4
+          exact version_cmp_exact env o.major o.minor mc se lv hvi l op r tv hd hne hf4
+      intro b hb
+      rw [hex] at hb; injection hb with hb; exact hb.symm
   · simp only [leafValue, if_true] at hd; exact hplatform tv hd hne
   · simp only [leafValue, if_true] at hd; exact hplatform tv hd hne
 
@@ -715,27 +994,6 @@ def noMypyNames : Cond → Bool
   | .or a b => noMypyNames a && noMypyNames b
   | _ => true
 
-def IsBoolish (t : TV) : Prop := t = .alwaysTrue ∨ t = .alwaysFalse ∨ t = .unknown
-
-theorem ofBool_boolish (b : Bool) : IsBoolish (ofBool b) := by cases b <;> simp [IsBoolish, ofBool]
-
-theorem decideVersion_boolish (i : Option VIdx) (th : Option Thing) (op : Op) (M m : Nat) :
-    IsBoolish (decideVersion i th op M m) := by
-  unfold decideVersion
-  split
-  · split
-    · exact ofBool_boolish _
-    · split
-      · exact ofBool_boolish _
-      · exact Or.inr (Or.inr rfl)
-  · simp only
-    split
-    · split
-      · exact ofBool_boolish _
-      · exact Or.inr (Or.inr rfl)
-    · exact Or.inr (Or.inr rfl)
-  · exact Or.inr (Or.inr rfl)
-
 theorem considerSysPlatform_boolish (c : Cond) (p : String) : IsBoolish (considerSysPlatform c p) := by
   unfold considerSysPlatform
   split
@@ -751,13 +1009,16 @@ theorem considerSysPlatform_boolish (c : Cond) (p : String) : IsBoolish (conside
   · exact Or.inr (Or.inr rfl)
 
 theorem leafValue_boolish (c : Cond) (o : Options) : IsBoolish (leafValue c o) := by
-  unfold leafValue
-  simp only
-  split
-  · split
+  cases c with
+  | cmp l op r =>
+    have hfold : leafValue (.cmp l op r) o =
+        (if versionValue o l op r = .unknown then considerSysPlatform (.cmp l op r) o.platform
+         else versionValue o l op r) := rfl
+    rw [hfold]
+    split
     · exact considerSysPlatform_boolish _ _
-    · unfold considerSysVersionInfo; exact decideVersion_boolish _ _ _ _ _
-  · simp only [if_true]; exact considerSysPlatform_boolish _ _
+    · exact versionValue_boolish _ _ _ _
+  | _ => simp only [leafValue, if_true]; exact considerSysPlatform_boolish _ _
 
 theorem pure_infer (o : Options) : ∀ c, noMypyNames c = true → IsBoolish (infer o c) := by
   intro c
@@ -813,96 +1074,5 @@ theorem noBad_of_pure (o : Options) : ∀ c, noMypyNames c = true → noBadPair 
       simp [h1, h2, badOr]
   | _ => intro _; rfl
 
-/-! ### inside the F4 shape mypy's answer is always the wrong one -/
-
-theorem version_core_f4 (env : Env) (M m mc se : Nat) (lv : String)
-    (henv : env.versionInfo = versionTuple M m mc lv se)
-    (v t : Operand) (i : VIdx) (th : Thing) (op : Op)
-    (hv : containsSysVersionInfo v = some i) (ht : containsIntOrTupleOfInts t = some th)
-    (tv : TV) (hd : decideVersion (some i) (some th) op M m = tv) (hne : tv ≠ .unknown)
-    (hf4 : f4Core i th op M m = true) :
-    ∃ a b, evalOperand env v = some a ∧ evalOperand env t = some b ∧
-      cmpVal op a b = some (!(tv == .alwaysTrue)) ∧ cmpVal (reverseOp op) b a = some (!(tv == .alwaysTrue)) := by
-  cases i with
-  | index k => simp [f4Core] at hf4
-  | slice lo hi =>
-    cases th with
-    | int n => simp [f4Core] at hf4
-    | tuple ts =>
-      cases hi with
-      | some b => simp [f4Core] at hf4
-      | none =>
-        simp only [f4Core, Bool.and_eq_true, decide_eq_true_eq] at hf4
-        obtain ⟨hts, hop⟩ := hf4
-        simp only [decideVersion] at hd
-        split at hd
-        · next hb =>
-          obtain ⟨extra, hsl, hex⟩ := slice_rt M m mc se lv lo none hb
-          have hx : extra ≠ [] := fun h => (hex.mp h) rfl
-          have hvv := cvi_slice hv env
-          rw [henv, hsl] at hvv
-          have htt := ciot_tuple ht env
-          have hval : ((natsToInts [M, m]).drop (lo.getD 0)).take (Option.getD none 2 - lo.getD 0) = natsToInts ts := by
-            rw [hts]
-            apply List.take_of_length_le
-            simp [natsToInts] <;> omega
-          rw [hval] at hvv hd
-          have hlex : lexOrd (natsToInts ts) (natsToInts ts) = .eq := (lexOrd_eq_iff _ _).mpr rfl
-          split at hd
-          · refine ⟨_, _, hvv, htt, ?_, ?_⟩
-            · simp only [cmpVal]
-              rw [cmpElems_prefix op extra _ _ (Nat.le_refl _), ← hd, fixedCmpTuple, ofBool_beq, hlex]
-              simp only [hx, if_false]
-              cases op <;> simp [ordThen, opHolds] at hop ⊢ <;> decide
-            · simp only [cmpVal]
-              rw [cmpElems_prefix_swapped (reverseOp op) extra _ _ (Nat.le_refl _), reverseOp_reverseOp,
-                ← hd, fixedCmpTuple, ofBool_beq, hlex]
-              simp only [hx, if_false]
-              cases op <;> simp [ordThen, opHolds] at hop ⊢ <;> decide
-          · exact absurd hd.symm hne
-        · exact absurd hd.symm hne
-
-theorem version_cmp_f4_wrong (env : Env) (M m mc se : Nat) (lv : String)
-    (henv : env.versionInfo = versionTuple M m mc lv se) (l : Operand) (op : Op) (r : Operand) (tv : TV)
-    (hd : considerSysVersionInfo l op r M m = tv) (hne : tv ≠ .unknown)
-    (hf4 : f4Shape l op r M m = true) :
-    eval env (.cmp l op r) = some (!(tv == .alwaysTrue)) := by
-  unfold considerSysVersionInfo at hd
-  unfold f4Shape at hf4
-  simp only at hd hf4
-  unfold pickOperands at hd hf4
-  cases hcl : containsSysVersionInfo l with
-  | some i =>
-    cases hcr : containsIntOrTupleOfInts r with
-    | some th =>
-      simp only [hcl, hcr] at hd hf4
-      obtain ⟨a, b, ha, hb, hc, _⟩ := version_core_f4 env M m mc se lv henv l r i th op hcl hcr tv hd hne hf4
-      simp [eval, ha, hb, hc]
-    | none =>
-      simp only [hcl, hcr] at hd hf4
-      cases hi : containsSysVersionInfo r with
-      | none => simp [hi] at hf4
-      | some i' =>
-        cases ht : containsIntOrTupleOfInts l with
-        | none => simp [hi, ht] at hf4
-        | some th' =>
-          simp only [hi, ht] at hd hf4
-          obtain ⟨a, b, ha, hb, _, hc⟩ :=
-            version_core_f4 env M m mc se lv henv r l i' th' (reverseOp op) hi ht tv hd hne hf4
-          rw [reverseOp_reverseOp] at hc
-          simp [eval, ha, hb, hc]
-  | none =>
-    simp only [hcl] at hd hf4
-    cases hi : containsSysVersionInfo r with
-    | none => simp [hi] at hf4
-    | some i' =>
-      cases ht : containsIntOrTupleOfInts l with
-      | none => simp [hi, ht] at hf4
-      | some th' =>
-        simp only [hi, ht] at hd hf4
-        obtain ⟨a, b, ha, hb, _, hc⟩ :=
-          version_core_f4 env M m mc se lv henv r l i' th' (reverseOp op) hi ht tv hd hne hf4
-        rw [reverseOp_reverseOp] at hc
-        simp [eval, ha, hb, hc]
 
 end Reach
